@@ -2,7 +2,7 @@
    LemmasRegex.v / LemmasFormats.v / LemmasCache.v / Tie.v and followed by
    Print Assumptions. Standard-library parsers, regexp compilation and matching in
    the cache model are universally quantified (oracles), never assumed. *)
-From Formats Require Import Regex FormatModel Cache Generated_formats LemmasRegex LemmasFormats LemmasCache Tie.
+From Formats Require Import Regex FormatModel IPModel Cache Generated_formats LemmasRegex LemmasFormats LemmasIP LemmasCache Tie.
 Open Scope N_scope.
 
 (* ------------------------------------------------------------------ matcher *)
@@ -95,6 +95,43 @@ Theorem ipv4_rejects_foreign_byte (parse_ip : word -> bool) s c :
   In c s -> is_digit c || (c =? 46) = false -> ipv4 parse_ip s = false.
 Proof. exact (ipv4_foreign_byte_l parse_ip s c). Qed.
 Print Assumptions ipv4_rejects_foreign_byte.
+
+(* net.ParseIP modelled (netip.ParseAddr dispatch + the parseIPv4Fields byte loop);
+   only the IPv6 text parser remains an oracle *)
+
+(* the IPv4 loop accepts exactly the canonical texts a.b.c.d, a b c d < 256 in decimal
+   without leading zeros *)
+Theorem parse_v4_accepts_exactly s :
+  parse_v4 s = true <->
+  exists a b c d, a < 256 /\ b < 256 /\ c < 256 /\ d < 256 /\ s = render_quad a b c d.
+Proof. exact (parse_v4_exact_l s). Qed.
+Print Assumptions parse_v4_accepts_exactly.
+
+(* for every IPv6 parser and every string the ipv4 format (ParseIP and the dotted-quad
+   expression) is the IPv4 loop alone: no oracle is left in ipv4 *)
+Theorem ipv4_is_parse_v4 (parse_v6 : word -> bool) s : ipv4m parse_v6 s = parse_v4 s.
+Proof. exact (ipv4m_is_parse_v4_l parse_v6 s). Qed.
+Print Assumptions ipv4_is_parse_v4.
+
+Theorem ipv4_accepts_exactly (parse_v6 : word -> bool) s :
+  ipv4m parse_v6 s = true <->
+  exists a b c d, a < 256 /\ b < 256 /\ c < 256 /\ d < 256 /\ s = render_quad a b c d.
+Proof. exact (ipv4m_exact_l parse_v6 s). Qed.
+Print Assumptions ipv4_accepts_exactly.
+
+(* every IPv4 address is an ip and is not an ipv6, whatever the IPv6 parser does *)
+Theorem ip_family_on_ipv4 (parse_v6 : word -> bool) a b c d :
+  a < 256 -> b < 256 -> c < 256 -> d < 256 ->
+  ipm parse_v6 (render_quad a b c d) = true /\ ipv6m parse_v6 (render_quad a b c d) = false.
+Proof. exact (ip_family_on_ipv4_l parse_v6 a b c d). Qed.
+Print Assumptions ip_family_on_ipv4.
+
+(* ipv6 accepts s exactly when the first of . : % in s is a colon and the IPv6 text
+   parser accepts s (so ::ffff:1.2.3.4 is an ipv6, 1.2.3.4 never is) *)
+Theorem ipv6_is_colon_dispatch_and_parser (parse_v6 : word -> bool) s :
+  ipv6m parse_v6 s = match dispatch s with KV6 => parse_v6 s | _ => false end.
+Proof. exact (ipv6m_is_oracle_l parse_v6 s). Qed.
+Print Assumptions ipv6_is_colon_dispatch_and_parser.
 
 (* ---------------------------------------------------------------- host name *)
 
@@ -264,4 +301,15 @@ Example cache_example :
   map (fun th => rev (map snd (done th))) (threads st) = [[true; false; true]; [true; false]; [true; true]] /\
   map (fun th => length (todo th)) (threads st) = [0; 0; 0]%nat /\
   cache st 1%nat = Some 2%nat /\ cache st 5%nat = Some 6%nat /\ cache st 7%nat = None.
+Proof. vm_compute. repeat split. Qed.
+
+(* 192.168.0.1 and 0.0.0.0 parse; 01.2.3.4, 1.2.3, 1.2.3.4., 1.2.3.256, 1..2.3 do not;
+   ::ffff:1.2.3.4 is dispatched to the IPv6 parser *)
+Example ipv4_examples :
+  parse_v4 (render_quad 192 168 0 1) = true /\ parse_v4 (render_quad 0 0 0 0) = true /\
+  parse_v4 [48;49;46;50;46;51;46;52] = false /\ parse_v4 [49;46;50;46;51] = false /\
+  parse_v4 [49;46;50;46;51;46;52;46] = false /\ parse_v4 [49;46;50;46;51;46;50;53;54] = false /\
+  parse_v4 [49;46;46;50;46;51] = false /\
+  dispatch [58;58;102;102;102;102;58;49;46;50;46;51;46;52] = KV6 /\
+  ipv4m (fun _ => true) (render_quad 10 0 0 255) = true /\ ipv6m (fun _ => true) (render_quad 10 0 0 255) = false.
 Proof. vm_compute. repeat split. Qed.
